@@ -30,6 +30,20 @@ class LitHooks(Hooks):
             return ("ok", ("decoded", m))
         return NotImplemented
 
+    def type_of(self, v):
+        # what a decoder request returns has the type its signature says (`Result<u32>` -> u32)
+        if isinstance(v, tuple) and len(v) == 2 and v[0] == "decoded":
+            from .. import symeval
+            ctx = symeval.DEFAULT_CTX
+            try:
+                f = ctx.rspirv.fn("rspirv::binary::decoder", v[1], "Decoder", False)
+            except Anchor:
+                return NotImplemented
+            ret = (f["sig"].get("ret") or "").replace(" ", "")
+            if ret.startswith("Result<") and ret.endswith(">"):
+                return ret[len("Result<"):-1]
+        return NotImplemented
+
 
 def lit_eval(ctx, tracked):
     """-> ('ok', variant, decoder method) | ('err', variant, [args])"""
